@@ -1,6 +1,6 @@
 (* Props/C06.v -- dispersion delays obey the f^-2 law; incoherent dedispersion realigns by them. *)
-From Coq Require Import ZArith QArith Qround List.
-From PB Require Import Gen.GenConsts Model.Ledger Model.Band Model.Disp Proofs.LedgerProofs Proofs.DispProofs.
+From Coq Require Import ZArith QArith Qround List Bool.
+From PB Require Import Gen.GenConsts Model.Ledger Model.Band Model.Disp Proofs.LedgerProofs Proofs.DispProofs Lib.PySlice Gen.GenDisp Proofs.DispGen.
 Open Scope Q_scope.
 
 Theorem C06_constant : Kdisp == 1000000 # 241.     (* 1/2.41e-4, from the GENERATED literal *)
@@ -35,7 +35,36 @@ Theorem C06_band_delays : forall b dm fr rate, 0 < bw b -> 0 < rate -> 0 < label
   ends_min (chan_delays b dm fr rate).
 Proof. exact chan_delays_ends_min. Qed.
 
+
+(* tie to the source by translation (T5, with its unit algebra): the delay in seconds and in samples and the integer bookkeeping of
+   incoherent_dedispersion (crop_before from the two end delays, the shifted delays, the output length, the new start time) are the
+   terms GENERATED from dedispersion.py on this run *)
+Theorem C06_generated_delay : forall dm f fr rate,
+  time_delay dm f fr == gen_time_delay dm f fr /\ sample_delay dm f fr rate == gen_sample_delay dm f fr rate.
+Proof. exact (fun dm f fr rate => conj (time_delay_generated dm f fr) (sample_delay_generated dm f fr rate)). Qed.
+Theorem C06_generated_incoherent : forall (l : ledger) (ds : list Z),
+  incoherent l ds =
+  match ds with
+  | nil => IErr 1
+  | d0 :: _ =>
+    let cb := gen_inc_crop_before d0 (last ds d0) in
+    let ds' := map (gen_inc_shift cb) ds in
+    let N := gen_inc_N (len l) (zmax_list (d0 + cb) ds') in
+    let lens := map (fun j => match slice_indices (Some j) (Some (j + N)%Z) None (len l) with
+                              | Some (lo, hi, st) => range_len lo hi st | None => 0%Z end) ds' in
+    match lens with
+    | nil => IErr 1
+    | n0 :: _ =>
+      if forallb (fun n => (n =? n0)%Z) lens then
+        IOk {| t0 := gen_inc_start (t0 l) cb (1 / rate l); rate := rate l; len := n0 |} cb ds'
+      else IErr 1
+    end
+  end.
+Proof. exact incoherent_generated. Qed.
+
 Print Assumptions C06_constant.
 Print Assumptions C06_chain.
 Print Assumptions C06_realign.
 Print Assumptions C06_band_delays.
+Print Assumptions C06_generated_incoherent.
+Print Assumptions C06_generated_delay.
